@@ -6,6 +6,7 @@ PROPS = "theories/Props/C14.v"
 RULE = ('as C04 with emphasis on the multi producer with 2-3 writer threads, ring sizes 2..128 (bitmap below / at / above one word), small batches. Monitors: every write gets consecutive sequences of the requested length, the successful CASes on the high watermark tile the sequence space in claim order, the cursor never decreases and never covers an unwritten sequence, after all claimants published the cursor equals the highest claimed sequence. '
         'SECOND PHASE (sequencer API driven directly from one thread, harness/ds family seqapi): random histories of next(count) / publish / consumer progress on SingleProducerSequencer (publishes in claim order, SEVERAL claims outstanding) and MultiProducerSequencer (publishes in ANY order), sizes 2..128, 0..3 gating cursors, only claims that do not block; implementation output compared with the extracted sequential model (Disruptor/SeqApi.v) and judged by the extracted property checker [check]')
 KF_D8 = "C14-D8-multi-publish-stranding"
+KF_D13 = "C14-D13-sequencer-clones-overlap"
 
 
 class MpSim:
@@ -55,7 +56,7 @@ def gen_seqapi(run):
             cases.append(Case("seqapi", [1, size, ng], ops, {"kind": "seqapi-lapping"}))
     for _ in range(n):
         kind = rng.randrange(2)
-        size = rng.choice([2, 4, 8, 8, 16, 64, 128]) if kind else rng.choice([1, 2, 4, 8, 8, 16, 64, 128])
+        size = rng.choice([2, 4, 8, 8, 16, 64, 128]) if kind else rng.choice([1, 2, 4, 8, 8, 16, 64, 128, 3, 5, 6, 7, 12])    # the single producer has no mask: any size
         ng = rng.choice([0, 1, 1, 2, 3])
         gating = [0] * ng
         out = []                       # outstanding claims (lo, hi) in claim order
@@ -133,7 +134,7 @@ def seqapi_phase(run):
     # BACK PRESSURE PROBES: a claim that must block by the capacity rule is issued anyway; it must not return (the harness answers
     # -888 after 1.5 s). Sequencers without any gating sequence included (then the minimum is 0).
     probes = []
-    for kind, size, ng in ((1, 4, 0), (1, 8, 1), (0, 4, 1), (1, 2, 2)) if not run.thorough else ((1, 4, 0), (1, 8, 1), (0, 4, 1), (1, 2, 2), (0, 8, 0), (1, 16, 0), (0, 2, 1), (1, 64, 1)):
+    for kind, size, ng in ((1, 4, 0), (1, 8, 1), (0, 4, 1), (1, 2, 2), (0, 6, 1)) if not run.thorough else ((1, 4, 0), (1, 8, 1), (0, 4, 1), (1, 2, 2), (0, 6, 1), (0, 8, 0), (1, 16, 0), (0, 2, 1), (1, 64, 1), (0, 3, 0), (0, 12, 2), (0, 5, 1)):
         ops = []
         if kind == 1:
             # multi: claims of one until size - 1 are outstanding (the most the rule allows), some published out of order, then one more
@@ -157,7 +158,129 @@ def seqapi_phase(run):
                        "probe": True, "rerun": "cd /verif && python3 bin/check.py C14 --replay <this file>"})
         break
     dist["seqapi_back_pressure_probes"] = {"issued": len(probes), "blocked_as_required": n_blocked}
+    if not run.violations:
+        prodwrite_phase(run, b, dist)
+    if not run.violations:
+        clone_phase(run, b, dist)
     return dist
+
+
+def clone_phase(run, b, dist):
+    """claims through CLONES of one multi-producer sequencer (harness/ds family seqclone; each claim is published at once): the ranges
+    must be pairwise disjoint and contiguous in claim order and the cursor must follow them. Claims that all go through ONE clone are
+    the control; claims through DIFFERENT clones overlapping is the listed finding D13."""
+    rng = run.rng
+    lines = []
+    for _ in range(12 if run.thorough else 4):
+        nc = rng.choice([1, 2, 2, 3]); size = rng.choice([8, 16, 64])
+        ops = []
+        for _ in range(rng.randrange(2, 6)): ops += [rng.randrange(nc), rng.choice([1, 1, 2, 3])]
+        lines.append(f"seqclone {size} {nc} " + fmt(ops))
+    lines.append("seqclone 8 2 0 1 1 1")                         # the witness of D13
+    rc, outs, err = run_lines(b, lines, line_timeout=15)
+    n_ok = 0; n_known = 0
+    for k, ln in enumerate(lines):
+        run.cov["evaluations"] += 1
+        o = outs[k] if k < len(outs) else "<no answer>"
+        toks = [int(x) for x in ln.split()[1:]]; nc = toks[1]; ops = [(toks[2 + 2 * i], toks[3 + 2 * i]) for i in range((len(toks) - 2) // 2)]
+        try:
+            t = [int(x) for x in o.split()]
+            assert len(t) == 3 * len(ops)
+        except (ValueError, AssertionError):
+            t = None
+        why = None; nxt = 1; cross = False; last_clone = {}
+        if t is None: why = f"unparsable answer {o[:80]!r}"
+        else:
+            for i, (cl, cnt) in enumerate(ops):
+                s_, e_, cur = t[3 * i:3 * i + 3]
+                if (s_, e_) != (nxt, nxt + cnt - 1) or cur != nxt + cnt - 1:
+                    why = f"claim {i} of {cnt} through clone {cl} returned ({s_}, {e_}) with cursor {cur} afterwards; the claims so far cover 1..{nxt - 1}, so it must be ({nxt}, {nxt + cnt - 1}) and the cursor {nxt + cnt - 1}"
+                    cross = any(c2 != cl for (c2, _) in ops[:i])
+                    break
+                nxt += cnt
+        if why is None:
+            n_ok += 1; continue
+        if cross and listed_open("C14", KF_D13):
+            run.known(KF_D13, KNOWN_TEXT[KF_D13]); n_known += 1; continue
+        run.violation({"kind": "property-oracle-failed-on-implementation", "why": why, "harness_line": ln, "got": o, "clones": True,
+                       "rerun": "cd /verif && python3 bin/check.py C14 --replay <this file>"})
+        break
+    dist["sequencer_clone_histories"] = {"issued": len(lines), "disjoint_as_required": n_ok, "known_finding_D13": n_known}
+
+
+def gen_prodwrite(run):
+    """Producer::write histories (harness/ds family prodwrite): every claim is published at once by the same call, so after each
+    write the cursor must be the highest claimed sequence; empty batches on the multi-producer sequencer included."""
+    rng = run.rng; cases = []
+    dist = {"prodwrite_histories": 0, "prodwrite_empty_batches": 0, "prodwrite_non_power_of_two_rings": 0}
+    for _ in range(300 if run.thorough else 60):
+        kind = rng.randrange(2)
+        size = rng.choice([2, 4, 8, 16, 64]) if kind else rng.choice([1, 2, 3, 4, 5, 6, 7, 8, 12, 16])
+        if size & (size - 1): dist["prodwrite_non_power_of_two_rings"] += 1
+        ng = rng.choice([0, 1, 1, 2])
+        gating = [0] * ng; nxt = 1 if kind else 0; ops = []
+        for _ in range(rng.randrange(2, 14)):
+            ming = min(gating) if gating else 0
+            c = rng.choice([1, 1, 2, 3, rng.randrange(1, size + 1)])
+            if kind and rng.random() < 0.25: c = 0; 
+            ok = (nxt + c - 1 <= ming + size and c >= 1) if kind == 0 else (max(0, (nxt - 1) - ming) + c < size)
+            if ok:
+                if c == 0: dist["prodwrite_empty_batches"] += 1
+                ops += [(1, c, 0), (2, nxt, nxt + c - 1)]; nxt += c
+            if ng and rng.random() < 0.6:
+                i = rng.randrange(ng); gating[i] = rng.randrange(gating[i], max(gating[i], nxt - 1) + 1); ops.append((3, i, gating[i]))
+        if not ops: continue
+        dist["prodwrite_histories"] += 1
+        cases.append(Case("seqapi", [kind, size, ng], ops, {"kind": "prodwrite"}))
+    return cases, dist
+
+
+def prodwrite_oracle(case, impl, spec):
+    """independent of the model: every claim is published before the next one is made, so (property text) the ranges are contiguous, of
+    the requested length, and after every write the cursor equals the highest claimed sequence and never moved past it meanwhile"""
+    if impl.endswith("-777") or impl.strip() in ("-888", "-999"):
+        return None if impl.endswith("-777") else f"the write did not return / panicked: {impl}"
+    try:
+        t = [int(x) for x in impl.split()]
+    except ValueError:
+        return f"unparsable output {impl[:80]!r}"
+    if -555 in t or -556 in t:
+        return "Producer::write did not pass every item to the closure exactly once at consecutive sequences (or an item is not readable through the data provider at its sequence)"
+    kind = case.prefix[0]; nxt = 1 if kind else 0; p = 0; cur = 0; want = 0
+    try:
+        for o in case.ops:
+            if o[0] == 1: want = o[1]; continue
+            if o[0] == 2:
+                s, e, inside, after = t[p:p + 4]; p += 4
+                if s != nxt or e != nxt + want - 1:
+                    return f"a write of {want} items was given the range ({s}, {e}); the next unclaimed sequence was {nxt}"
+                if inside != cur:
+                    return f"the cursor read {inside} while the claim ({s}, {e}) was still being filled (before: {cur}): it moved although nothing new had been published"
+                nxt += want
+                if after != nxt - 1 and not (kind == 0 and nxt == 0):
+                    return f"after a write of {want} items ending at {nxt - 1} the cursor is {after}; everything claimed has been published, so it must be {nxt - 1}"
+                cur = after
+            else:
+                cur2 = t[p]; p += 1
+                if cur2 != cur: return f"the cursor changed from {cur} to {cur2} when a consumer cursor was set"
+    except (IndexError, ValueError):
+        return None
+    return None
+
+
+def prodwrite_phase(run, b, dist):
+    cases, d2 = gen_prodwrite(run); dist.update(d2)
+
+    def oracle(case, impl, spec):
+        why = prodwrite_oracle(case, impl, spec)
+        if why: return why
+        if spec in ("checker:6", "checker:8") or impl.endswith("-777"): return None
+        return None if spec == "checker:0" else f"the C14 property checker (SeqApi.check) rejected the observed history: verdict {spec}"
+    d = Differential(run, {"release": b}, lambda c: "seqapi_model_entry", None, oracle=oracle, harness_head=lambda c: "prodwrite",
+                     check_entry=lambda c: "seqapi_check_entry", nontrivial=lambda c: sum(1 for o in c.ops if o[0] == 1) >= 2, max_reports=1)
+    d.shrink_budget_s = 20
+    d.process(cases)
+    d.finish()
 
 
 def main():
@@ -171,12 +294,28 @@ _replay_ring = replay_ring("C14")
 def replay(path):
     import json
     d = json.load(open(path))
+    if d.get("clones"):
+        b, log = cargo_build("ds")
+        rc, outs, err = run_lines(b, [d["harness_line"]], line_timeout=15)
+        got = outs[0].strip() if outs else "<no answer>"
+        print("stored :", d["got"]); print("now    :", got); print(d["why"])
+        toks = got.split(); bad = False; nxt = 1
+        ops = d["harness_line"].split()[3:]
+        for i in range(len(ops) // 2):
+            cnt = int(ops[2 * i + 1])
+            if toks[3 * i:3 * i + 3] != [str(nxt), str(nxt + cnt - 1), str(nxt + cnt - 1)]: bad = True
+            nxt += cnt
+        print("REPRODUCED" if bad else "not reproduced"); return 1 if bad else 0
     if d.get("probe"):
         run = Run("C14"); b, log = cargo_build("ds")
         rc, outs, err = run_lines(b, [d["harness_line"]], line_timeout=15)
         got = outs[0].strip() if outs else "<no answer>"
         print("expected: -888 (blocked)   got:", got)
         print("REPRODUCED" if got != "-888" else "not reproduced"); return 1 if got != "-888" else 0
+    if "harness_line" in d and d["harness_line"].startswith("prodwrite"):
+        run = Run("C14"); ensure_driver(); b, log = cargo_build("ds")
+        return generic_replay(Differential(run, {"release": b}, lambda c: "seqapi_model_entry", None, check_entry=lambda c: "seqapi_check_entry", harness_head=lambda c: "prodwrite",
+                                           oracle=lambda case, impl, spec: prodwrite_oracle(case, impl, spec) or (None if spec in ("checker:0", "checker:6", "checker:8") or impl.endswith("-777") else spec)), path)
     if "harness_line" in d and d["harness_line"].startswith("seqapi"):
         run = Run("C14"); ensure_driver(); b, log = cargo_build("ds")
         return generic_replay(Differential(run, {"release": b}, lambda c: "seqapi_model_entry", None, check_entry=lambda c: "seqapi_check_entry",
